@@ -11,9 +11,16 @@ LEVEL_TEXT = ('Two ingredients of the property are proved. (1) SCRIPT: for n = 1
               'template instantiation + serialisation (Script.__init__, Script.serialize, data_pack) yields exactly OP_m <key 1>..<key n> OP_n '
               'OP_CHECKMULTISIG for all key bytes - so wallets that hand the same key list to it get the same script. (2) THRESHOLD: '
               'Input.verify accepts exactly when the first m signatures match m distinct keys in key order (C02 loop-invariant proof, any n).')
-LEVEL_NOTE = ('NOT covered: that every cosigner wallet passes the keys in the same order (Wallet._new_key_multisig sorts by public key bytes; '
-              'list.sort is assumed, the database part is outside reach), Input.update_scripts multisig branch, signature ordering in '
-              'Transaction.sign, export/import chains between wallets (dict / raw / object hand-off), broadcasting.')
-NOT_COVERED = ['Wallet.create multisig branch, Wallet._new_key_multisig (ORM)', 'Transaction.sign ordering, Input.update_scripts', 'transaction_import / hand-off chains']
+LEVEL_NOTE = ('Not proved (outside the verifier: ORM, object graphs): that every cosigner wallet passes the keys in the same order, signature ordering in '
+              'Transaction.sign, export/import chains between wallets. These HISTORIES are covered by a BOUNDED native stand-in (bounded/c10_handoff.py, never '
+              'counted as proved): m-of-n cosigner wallets on the offline test network, every ordered choice of m signers x hand-off as object / dict / raw hex '
+              'x legacy / p2sh-segwit / segwit, judged by an oracle independent of Input.verify (redeem script lexed by spec, pure-Python ECDSA, in-order matching). '
+              'Broadcasting is not covered.')
+NOT_COVERED = ['Wallet.create multisig branch, Wallet._new_key_multisig (ORM) as proofs', 'Transaction.sign ordering as a proof (bounded harness only)', 'broadcast']
+
+
+def extra_checks(tier, seed, opens):
+    from bounded import c10_handoff
+    return [c10_handoff.run(tier, seed, opens)]
 TRUSTED = ['spec/script.py multisig_redeem', 'C02 trusted base']
 FUZZ_QUICK = 100
